@@ -110,13 +110,26 @@ Theorem C01_first_complete_copy_wins : forall H h kd cb ops i w d L,
 Proof. exact first_copy_wins. Qed.
 Print Assumptions C01_first_complete_copy_wins.
 
-(* 4b. ... and every other writer is shut down: after the first drain (and still after drain; io; drain) no
-       writer at all is open or pending.  This part needs the re-open discipline [disciplined]: a peer is not
-       opened again while the remove_writer callback of its previous, finished writer is still queued
-       (see C01_stale_reopen_orphans_writer below for what happens otherwise).  PARTIAL in that sense. *)
-Theorem C01_first_complete_copy_closes_others_partial : forall H h kd cb ops i w d L,
+(* 4a. "... with exactly those bytes stored".  If, at the moment the live writer completes its correct copy t,
+       the blob is neither verified nor being saved and every writer_finished_callback still waiting in the ready
+       queue belongs to a writer that finished WITHOUT a result ([loser]) - i.e. this copy is the first - then
+       whatever happens afterwards nothing but t is ever in the store.  (Without "first", theorem 4 still gives
+       bytes of the same length and the same hash: equal to t unless H collides.) *)
+Theorem C01_first_complete_copy_exact_bytes : forall H h kd cb ops i w d L,
   let s := run H h kd cb ops init in
-  disciplined H h kd cb ops init ->
+  nth_error (s_ws s) i = Some w -> w_open w = true -> w_fut w = FPending -> s_len s = Some L -> 0 < L ->
+  N.of_nat (length (w_buf w ++ d)) = L -> H (w_buf w ++ d) = h ->
+  s_verified s = false -> s_writing s = false ->
+  (forall j, In (QWfc j) (s_q s) -> loser s j) ->
+  let s1 := fst (step H h kd cb (Write i d) s) in
+  forall ops' x, s_store (run H h kd cb ops' s1) = Some x -> x = w_buf w ++ d.
+Proof. exact first_copy_exact. Qed.
+Print Assumptions C01_first_complete_copy_exact_bytes.
+
+(* 4b. ... and every other writer is shut down, after ANY history: after the first drain (and still after
+       drain; io; drain) no writer at all is open or pending, and no writer was created meanwhile. *)
+Theorem C01_first_complete_copy_closes_others : forall H h kd cb ops i w d L,
+  let s := run H h kd cb ops init in
   nth_error (s_ws s) i = Some w -> w_open w = true -> w_fut w = FPending -> s_len s = Some L -> 0 < L ->
   N.of_nat (length (w_buf w ++ d)) = L -> H (w_buf w ++ d) = h ->
   let s1 := fst (step H h kd cb (Write i d) s) in
@@ -126,7 +139,7 @@ Theorem C01_first_complete_copy_closes_others_partial : forall H h kd cb ops i w
   /\ (forall j wj, nth_error (s_ws s4) j = Some wj -> w_open wj = false /\ w_fut wj <> FPending)
   /\ length (s_ws s4) = length (s_ws s).
 Proof. exact first_copy_closes_others. Qed.
-Print Assumptions C01_first_complete_copy_closes_others_partial.
+Print Assumptions C01_first_complete_copy_closes_others.
 
 (* 4c. The completion callback never fires twice, in any history. *)
 Theorem C01_completed_at_most_once : forall H h kd cb ops,
@@ -162,15 +175,15 @@ Definition Hid (b : bytes) : bytes := b.
 Definition nm : bytes := [Byte.x01; Byte.x02; Byte.x03].
 
 (* two peers, the first sends a corrupted copy in two chunks, the second the correct one in three.  After
-   [ex_ops] the hypotheses of theorems 4 and 4b hold for writer 1 and the missing chunk [3] ... *)
+   [ex_ops] the hypotheses of theorems 4, 4a and 4b hold for writer 1 and the missing chunk [3] ... *)
 Definition ex_ops : list op :=
   [SetLength 3; Open 1; Open 2; Write 0 [Byte.x01]; Write 1 [Byte.x01]; Write 0 [Byte.x02; Byte.xff];
    Write 1 [Byte.x02]; Tick].
 Example C01_ex_hypotheses :
   let s := run Hid nm KFile true ex_ops init in
-  disciplined Hid nm KFile true ex_ops init
-  /\ (exists w, nth_error (s_ws s) 1 = Some w /\ w_open w = true /\ w_fut w = FPending
-                /\ w_buf w = [Byte.x01; Byte.x02]) /\ s_len s = Some 3.
+  (exists w, nth_error (s_ws s) 1 = Some w /\ w_open w = true /\ w_fut w = FPending
+                /\ w_buf w = [Byte.x01; Byte.x02]) /\ s_len s = Some 3
+  /\ s_verified s = false /\ s_writing s = false /\ s_q s = [].
 Proof. exact ex_hypotheses. Qed.
 (* ... and the run ends as the theorems say: written once, verified, callback once, both writers closed *)
 Example C01_ex_wins :
@@ -193,14 +206,18 @@ Example C01_ex_length :
   = (Some 2097152, None, None, Some 0, Some 3).
 Proof. vm_compute. reflexivity. Qed.
 
-(* Why 4b needs the discipline (machine-checked witness of a behaviour of the code as it is): peer 1 fails, is
-   opened again before the loop ran, the stale remove_writer of the failed writer then unregisters the NEW
-   writer; when peer 2 delivers the blob, writer 1 is neither closed nor cancelled. *)
+(* The defect repaired by 597bcef, as a machine-checked fact about a model of the OLD code ([run_old]:
+   remove_writer deleted writers[key] whoever was registered under it): peer 1 fails, is opened again before the
+   loop ran, the stale remove_writer of the failed writer unregistered the NEW writer, so when peer 2 delivered the
+   blob, writer 1 was neither closed nor cancelled - theorem 4b was false for the old code.  The repaired model
+   closes it on the same history. *)
 Definition stale_ops : list op :=
   [SetLength 3; Open 1; Write 0 [Byte.x01; Byte.x02; Byte.x03; Byte.x04]; Open 1; Tick; Open 2;
    Write 2 nm; Drain; IoDone; Drain].
-Example C01_stale_reopen_orphans_writer :
-  let s := run Hid nm KFile true stale_ops init in
-  (s_verified s, map w_open (s_ws s), map w_fut (s_ws s)) = (true, [false; true; false], [FErrLen; FPending; FOk nm])
-  /\ ~ disciplined Hid nm KFile true stale_ops init.
-Proof. exact ex_stale_orphan. Qed.
+Example C01_stale_reopen_orphans_writer_refuted :
+  let so := run_old Hid nm KFile true stale_ops init in
+  let sn := run Hid nm KFile true stale_ops init in
+  (s_verified so, map w_open (s_ws so), map w_fut (s_ws so)) = (true, [false; true; false], [FErrLen; FPending; FOk nm])
+  /\ (s_verified sn, map w_open (s_ws sn), map w_fut (s_ws sn))
+     = (true, [false; false; false], [FErrLen; FCancelled; FOk nm]).
+Proof. exact stale_reopen_old_vs_new. Qed.
